@@ -2,3 +2,527 @@
 // SPDX-License-Identifier: Apache-2.0
 
 //! verification hook drivers: recovery
+//!
+//! Drives a real `recovery::Manager` (server side, two validated paths, a congestion controller
+//! that only counts bytes) with plain integer operations and reports what the manager tells its
+//! environment after every operation: loss callbacks, newly-acked hulls, per-path byte counters,
+//! the armed timer, the PTO backoff and the RTT estimates of both paths.
+
+use crate::{
+    connection::{self, ConnectionIdMapper, InternalConnectionIdGenerator},
+    endpoint, path,
+    recovery::{self, Manager},
+};
+use core::{ops::RangeInclusive, time::Duration};
+use s2n_quic_core::{
+    event::{self, testing::Publisher},
+    frame::{self, ack::AckRanges, ack_elicitation::AckElicitation},
+    inet::{DatagramInfo, ExplicitCongestionNotification, SocketAddress},
+    packet::number::{PacketNumber, PacketNumberRange, PacketNumberSpace},
+    path::{migration, mtu, RemoteAddress},
+    random,
+    recovery::{
+        congestion_controller::{self, Publisher as CcPublisher},
+        RttEstimator,
+    },
+    stateless_reset,
+    time::{timer::Provider as _, Timestamp},
+    transmission, transport,
+    varint::VarInt,
+};
+use std::net::SocketAddr;
+
+/// a congestion controller that only keeps the byte ledger
+#[derive(Clone, Copy, Debug, Default, PartialEq)]
+pub struct CountingCc {
+    pub sent: u64,
+    pub acked: u64,
+    pub lost: u64,
+    pub discarded: u64,
+}
+
+#[derive(Debug, Default)]
+pub struct CountingEndpoint;
+
+impl congestion_controller::Endpoint for CountingEndpoint {
+    type CongestionController = CountingCc;
+
+    fn new_congestion_controller(
+        &mut self,
+        _path_info: congestion_controller::PathInfo,
+    ) -> Self::CongestionController {
+        CountingCc::default()
+    }
+}
+
+impl congestion_controller::CongestionController for CountingCc {
+    type PacketInfo = ();
+
+    fn congestion_window(&self) -> u32 {
+        u32::MAX
+    }
+
+    fn bytes_in_flight(&self) -> u32 {
+        (self.sent as i128 - self.acked as i128 - self.lost as i128 - self.discarded as i128)
+            .clamp(0, u32::MAX as i128) as u32
+    }
+
+    fn is_congestion_limited(&self) -> bool {
+        false
+    }
+
+    fn requires_fast_retransmission(&self) -> bool {
+        false
+    }
+
+    fn on_packet_sent<Pub: CcPublisher>(
+        &mut self,
+        _time_sent: Timestamp,
+        sent_bytes: usize,
+        _app_limited: Option<bool>,
+        _rtt_estimator: &RttEstimator,
+        _publisher: &mut Pub,
+    ) {
+        self.sent += sent_bytes as u64;
+    }
+
+    fn on_rtt_update<Pub: CcPublisher>(
+        &mut self,
+        _time_sent: Timestamp,
+        _now: Timestamp,
+        _rtt_estimator: &RttEstimator,
+        _publisher: &mut Pub,
+    ) {
+    }
+
+    fn on_ack<Pub: CcPublisher>(
+        &mut self,
+        _newest_acked_time_sent: Timestamp,
+        bytes_acknowledged: usize,
+        _newest_acked_packet_info: Self::PacketInfo,
+        _rtt_estimator: &RttEstimator,
+        _random_generator: &mut dyn random::Generator,
+        _ack_receive_time: Timestamp,
+        _publisher: &mut Pub,
+    ) {
+        self.acked += bytes_acknowledged as u64;
+    }
+
+    fn on_packet_lost<Pub: CcPublisher>(
+        &mut self,
+        lost_bytes: u32,
+        _packet_info: Self::PacketInfo,
+        _persistent_congestion: bool,
+        _new_loss_burst: bool,
+        _random_generator: &mut dyn random::Generator,
+        _timestamp: Timestamp,
+        _publisher: &mut Pub,
+    ) {
+        self.lost += lost_bytes as u64;
+    }
+
+    fn on_explicit_congestion<Pub: CcPublisher>(
+        &mut self,
+        _ce_count: u64,
+        _event_time: Timestamp,
+        _publisher: &mut Pub,
+    ) {
+    }
+
+    fn on_mtu_update<Pub: CcPublisher>(&mut self, _max_data_size: u16, _publisher: &mut Pub) {}
+
+    fn on_packet_discarded<Pub: CcPublisher>(&mut self, bytes_sent: usize, _publisher: &mut Pub) {
+        self.discarded += bytes_sent as u64;
+    }
+
+    fn earliest_departure_time(&self) -> Option<Timestamp> {
+        None
+    }
+}
+
+/// server endpoint configuration whose paths carry a `CountingCc`
+#[derive(Debug)]
+pub struct RecoveryServer;
+
+impl endpoint::Config for RecoveryServer {
+    type CongestionControllerEndpoint = CountingEndpoint;
+    type TLSEndpoint = s2n_quic_core::crypto::tls::testing::Endpoint;
+    type PathHandle = RemoteAddress;
+    type Connection = connection::Implementation<Self>;
+    type ConnectionLock = std::sync::Mutex<Self::Connection>;
+    type EndpointLimits = super::common::Limits;
+    type ConnectionIdFormat = connection::id::testing::Format;
+    type StatelessResetTokenGenerator = stateless_reset::token::testing::Generator;
+    type RandomGenerator = random::testing::Generator;
+    type TokenFormat = s2n_quic_core::token::testing::Format;
+    type ConnectionLimits = s2n_quic_core::connection::limits::Limits;
+    type Mtu = s2n_quic_core::path::mtu::Config;
+    type StreamManager = crate::stream::DefaultStreamManager;
+    type ConnectionCloseFormatter = s2n_quic_core::connection::close::Development;
+    type EventSubscriber = event::testing::Subscriber;
+    type PathMigrationValidator = migration::allow_all::Validator;
+    type PacketInterceptor = s2n_quic_core::packet::interceptor::Disabled;
+    type DatagramEndpoint = s2n_quic_core::datagram::Disabled;
+    type DcEndpoint = s2n_quic_core::dc::testing::MockDcEndpoint;
+
+    fn context(&mut self) -> endpoint::Context<'_, Self> {
+        unimplemented!("the verification drivers never build a whole endpoint")
+    }
+
+    const ENDPOINT_TYPE: s2n_quic_core::endpoint::Type = s2n_quic_core::endpoint::Type::Server;
+}
+
+type Cfg = RecoveryServer;
+
+/// ACK ranges exactly as handed over (descending, as the wire format delivers them)
+pub struct RawRanges(pub Vec<RangeInclusive<VarInt>>);
+
+impl<'a> AckRanges for &'a RawRanges {
+    type Iter = core::iter::Cloned<core::slice::Iter<'a, RangeInclusive<VarInt>>>;
+
+    fn ack_ranges(&self) -> Self::Iter {
+        self.0.iter().cloned()
+    }
+}
+
+struct Ctx<'a> {
+    path_manager: &'a mut path::Manager<Cfg>,
+    path_id: path::Id,
+    confirmed: bool,
+    lost: Vec<u64>,
+    hulls: Vec<(u64, u64)>,
+}
+
+impl recovery::Context<Cfg> for Ctx<'_> {
+    const ENDPOINT_TYPE: endpoint::Type = endpoint::Type::Server;
+
+    fn is_handshake_confirmed(&self) -> bool {
+        self.confirmed
+    }
+
+    fn active_path(&self) -> &path::Path<Cfg> {
+        self.path_manager.active_path()
+    }
+
+    fn active_path_mut(&mut self) -> &mut path::Path<Cfg> {
+        self.path_manager.active_path_mut()
+    }
+
+    fn path(&self) -> &path::Path<Cfg> {
+        &self.path_manager[self.path_id]
+    }
+
+    fn path_mut(&mut self) -> &mut path::Path<Cfg> {
+        &mut self.path_manager[self.path_id]
+    }
+
+    fn path_by_id(&self, path_id: path::Id) -> &path::Path<Cfg> {
+        &self.path_manager[path_id]
+    }
+
+    fn path_mut_by_id(&mut self, path_id: path::Id) -> &mut path::Path<Cfg> {
+        &mut self.path_manager[path_id]
+    }
+
+    fn path_id(&self) -> path::Id {
+        self.path_id
+    }
+
+    fn validate_packet_ack(
+        &mut self,
+        _timestamp: Timestamp,
+        _packet_number_range: &PacketNumberRange,
+        _lowest_tracking_packet_number: PacketNumber,
+    ) -> Result<(), transport::Error> {
+        Ok(())
+    }
+
+    fn on_new_packet_ack<Pub: event::ConnectionPublisher>(
+        &mut self,
+        packet_number_range: &PacketNumberRange,
+        _publisher: &mut Pub,
+    ) {
+        self.hulls.push((
+            packet_number_range.start().as_u64(),
+            packet_number_range.end().as_u64(),
+        ));
+    }
+
+    fn on_packet_ack(&mut self, _timestamp: Timestamp, _packet_number_range: &PacketNumberRange) {}
+
+    fn on_packet_loss<Pub: event::ConnectionPublisher>(
+        &mut self,
+        packet_number_range: &PacketNumberRange,
+        _publisher: &mut Pub,
+    ) {
+        let mut pn = packet_number_range.start().as_u64();
+        while pn <= packet_number_range.end().as_u64() {
+            self.lost.push(pn);
+            pn += 1;
+        }
+    }
+
+    fn on_rtt_update(&mut self, _now: Timestamp) {}
+
+    fn on_mtu_update(&mut self, _max_datagram_size: u16) {}
+}
+
+fn addr(s: &str) -> RemoteAddress {
+    let a: SocketAddr = s.parse().unwrap();
+    RemoteAddress::from(SocketAddress::from(a))
+}
+
+fn ts(us: u64) -> Timestamp {
+    unsafe { Timestamp::from_duration(Duration::from_micros(us)) }
+}
+
+fn ts_us(t: Timestamp) -> i128 {
+    unsafe { t.as_duration().as_micros() as i128 }
+}
+
+/// input = [space; confirmed; max_ack_delay_ms; start_us] then ops of 8 integers
+///   [1; gap; bytes; ack_eliciting; dt; path; _; _]   on_packet_sent(pn = last + max(gap,1), ..) at now += dt
+///   [2; dt; ..]                                      on_transmit_burst_complete(now += dt)
+///   [3|4; dt; largest; len1; gap2; len2; ack_delay_us; _]  on_ack_frame received on path 0|1:
+///        ranges [largest-len1, largest] and, when len2 > 0, [e2-(len2-1), e2] with e2 = largest-len1-2-gap2
+///   [5; dt; ..]                                      on_timeout(now += dt), max backoff = 2 * backoff
+///   [6; ..]                                          on_packet_number_space_discarded(path 0); ends the case
+/// output per op:
+///   [code; n_lost; lost..; n_hulls; (start,end)..; sent0; acked0; lost0; disc0; sent1; acked1; lost1; disc1;
+///    armed; expiration_us; pto_backoff; requires_probe; smoothed0; latest0; min0; first0; smoothed1; latest1; min1; first1]
+pub fn run(input: &[i128]) -> Vec<i128> {
+    let mut out = vec![];
+    let at = |i: usize| input.get(i).copied().unwrap_or(0);
+    let space = match at(0) {
+        0 => PacketNumberSpace::Initial,
+        1 => PacketNumberSpace::Handshake,
+        _ => PacketNumberSpace::ApplicationData,
+    };
+    let confirmed = at(1) != 0;
+    let mut publisher = Publisher::no_snapshot();
+    let mut random_generator = random::testing::Generator(123);
+
+    let first_addr = addr("127.0.0.1:80");
+    let second_addr = addr("127.0.0.2:80");
+    let registry = ConnectionIdMapper::new(&mut random_generator, endpoint::Type::Server)
+        .create_server_peer_id_registry(
+            InternalConnectionIdGenerator::new().generate_id(),
+            connection::PeerId::TEST_ID,
+            true,
+        );
+    let mut rtt_estimator = RttEstimator::default();
+    rtt_estimator.on_max_ack_delay(
+        VarInt::new(at(2) as u64)
+            .unwrap()
+            .try_into()
+            .expect("max_ack_delay"),
+    );
+    let limits = s2n_quic_core::connection::limits::Limits::default();
+    let first = path::Path::<Cfg>::new(
+        first_addr,
+        connection::PeerId::TEST_ID,
+        connection::LocalId::TEST_ID,
+        rtt_estimator,
+        CountingCc::default(),
+        true,
+        mtu::Config::default(),
+        limits.anti_amplification_multiplier(),
+        0,
+    );
+    let mut path_manager = path::Manager::<Cfg>::new(first, registry);
+    let mut now_us = (at(3) as u64).max(1);
+    {
+        let datagram = DatagramInfo {
+            timestamp: ts(now_us),
+            payload_len: 0,
+            ecn: ExplicitCongestionNotification::default(),
+            destination_connection_id: connection::LocalId::TEST_ID,
+            destination_connection_id_classification: connection::id::Classification::Local,
+            source_connection_id: None,
+        };
+        let _ = path_manager
+            .on_datagram_received(
+                &second_addr,
+                &datagram,
+                true,
+                &mut CountingEndpoint,
+                &mut migration::allow_all::Validator,
+                &mut mtu::Manager::new(mtu::Config::default()),
+                &limits,
+                &mut publisher,
+            )
+            .expect("second path");
+    }
+    path_manager
+        .path_mut(&first_addr)
+        .unwrap()
+        .1
+        .on_handshake_packet();
+    path_manager
+        .path_mut(&second_addr)
+        .unwrap()
+        .1
+        .on_handshake_packet();
+    let ids = [unsafe { path::Id::new(0) }, unsafe { path::Id::new(1) }];
+    assert!(path_manager[ids[1]].is_peer_validated() && !path_manager[ids[1]].at_amplification_limit());
+
+    let mut manager = Manager::<Cfg>::new(space);
+    let mut last_pn: Option<u64> = None;
+    // an ack-eliciting packet was sent and the transmission burst was not completed yet
+    let mut burst_open = false;
+    let mut i = 4;
+    while i + 8 <= input.len() {
+        let o = &input[i..i + 8];
+        i += 8;
+        let mut ctx = Ctx {
+            path_manager: &mut path_manager,
+            path_id: ids[0],
+            confirmed,
+            lost: vec![],
+            hulls: vec![],
+        };
+        let mut code: i128 = 0;
+        let mut stop = false;
+        if matches!(o[0], 3..=6) {
+            now_us += if o[0] == 6 { 0 } else { o[1] as u64 };
+            // the connection always completes a transmission burst before it processes anything else
+            if burst_open {
+                manager.on_transmit_burst_complete(
+                    ctx.path_manager.active_path(),
+                    ts(now_us),
+                    confirmed,
+                    &mut random_generator,
+                );
+                burst_open = false;
+            }
+        }
+        match o[0] {
+            1 => {
+                now_us += o[4] as u64;
+                let pn = match last_pn {
+                    None => (o[1] as u64).saturating_sub(1),
+                    Some(l) => l + (o[1] as u64).max(1),
+                };
+                last_pn = Some(pn);
+                ctx.path_id = ids[(o[5] != 0) as usize];
+                let bytes = o[2] as usize;
+                burst_open |= o[3] != 0;
+                let outcome = transmission::Outcome {
+                    ack_elicitation: if o[3] != 0 {
+                        AckElicitation::Eliciting
+                    } else {
+                        AckElicitation::NonEliciting
+                    },
+                    is_congestion_controlled: bytes > 0,
+                    bytes_sent: bytes,
+                    bytes_progressed: 0,
+                };
+                manager.on_packet_sent(
+                    space.new_packet_number(VarInt::new(pn).expect("pn")),
+                    outcome,
+                    ts(now_us),
+                    ExplicitCongestionNotification::default(),
+                    transmission::Mode::Normal,
+                    None,
+                    &mut ctx,
+                    &mut publisher,
+                );
+            }
+            2 => {
+                now_us += o[1] as u64;
+                manager.on_transmit_burst_complete(
+                    ctx.path_manager.active_path(),
+                    ts(now_us),
+                    confirmed,
+                    &mut random_generator,
+                );
+                burst_open = false;
+            }
+            3 | 4 if last_pn.map_or(true, |l| o[2] as u64 > l) => {
+                // a real connection rejects an ACK for a packet number it never sent
+                code = 3;
+            }
+            3 | 4 => {
+                ctx.path_id = ids[(o[0] == 4) as usize];
+                let largest = o[2] as u64;
+                let s1 = largest.saturating_sub(o[3] as u64);
+                let mut ranges = vec![VarInt::new(s1).unwrap()..=VarInt::new(largest).expect("pn")];
+                if o[5] > 0 && s1 >= 2 + o[4] as u64 {
+                    let e2 = s1 - 2 - o[4] as u64;
+                    let s2 = e2.saturating_sub(o[5] as u64 - 1);
+                    ranges.push(VarInt::new(s2).unwrap()..=VarInt::new(e2).unwrap());
+                }
+                let raw = RawRanges(ranges);
+                let frame = frame::Ack {
+                    ack_delay: VarInt::new(o[6] as u64).expect("ack delay"),
+                    ack_ranges: &raw,
+                    ecn_counts: None,
+                };
+                let r = manager.on_ack_frame(
+                    ts(now_us),
+                    frame,
+                    space.new_packet_number(VarInt::from_u8(0)),
+                    &mut random_generator,
+                    &mut ctx,
+                    &mut publisher,
+                );
+                code = r.is_err() as i128;
+            }
+            5 => {
+                match ctx.path_manager.active_path().pto_backoff.checked_mul(2) {
+                    Some(max_backoff) => manager.on_timeout(
+                        ts(now_us),
+                        &mut random_generator,
+                        max_backoff,
+                        &mut ctx,
+                        &mut publisher,
+                    ),
+                    None => code = 2,
+                }
+            }
+            6 => {
+                manager.on_packet_number_space_discarded(
+                    &mut ctx.path_manager[ids[0]],
+                    ids[0],
+                    &mut publisher,
+                );
+                stop = true;
+            }
+            _ => {}
+        }
+        let mut lost = core::mem::take(&mut ctx.lost);
+        lost.sort_unstable();
+        let mut hulls = core::mem::take(&mut ctx.hulls);
+        hulls.sort_unstable();
+        out.push(code);
+        out.push(lost.len() as i128);
+        out.extend(lost.iter().map(|v| *v as i128));
+        out.push(hulls.len() as i128);
+        for (s, e) in hulls {
+            out.push(s as i128);
+            out.push(e as i128);
+        }
+        for id in ids {
+            let cc = path_manager[id].congestion_controller;
+            out.extend([cc.sent as i128, cc.acked as i128, cc.lost as i128, cc.discarded as i128]);
+        }
+        let e = manager.next_expiration();
+        out.push(e.is_some() as i128);
+        out.push(e.map(ts_us).unwrap_or(0));
+        out.push(path_manager.active_path().pto_backoff as i128);
+        out.push(manager.requires_probe() as i128);
+        for id in ids {
+            let r = &path_manager[id].rtt_estimator;
+            out.extend([
+                r.smoothed_rtt().as_nanos() as i128,
+                r.latest_rtt().as_nanos() as i128,
+                r.min_rtt().as_nanos() as i128,
+                r.first_rtt_sample().is_some() as i128,
+            ]);
+        }
+        if stop {
+            break;
+        }
+    }
+    out
+}
